@@ -7,6 +7,7 @@ def run(ctx):
     readers.rule_panic_census(ctx)
     readers.rule_iccma_guards(ctx)
     readers.rule_declaration_order(ctx)
+    readers.rule_line_errors_reported(ctx)
     ctx.assume("regex-automata / regex-syntax interpret the patterns as the regex crate in Cargo.lock")
     ctx.assume("std's BufRead::lines, str::parse, split_whitespace do not panic; allocation for a declared size that fits in memory succeeds")
     return (
